@@ -206,6 +206,24 @@ int main(int argc, char** argv){ vr::parse(argc, argv);
 #endif
   unsigned long long maxv = NB >= 64 ? ~0ull : ((1ull << NB) - 1), value = vr::u64("value", vr::u64("v", maxv)) & maxv;
   unsigned long long mask = maxv << fb;
+  if (vr::str("check") == "all" && NB <= 16) {
+    // search window (used when the changed source cannot be extracted): every proxy operation with operands around 0, 1, 2 and 3 periods of the
+    // channel, on several channel contents: the channel holds the result modulo 2^bits and no other bit of the carrier or its neighbours changes
+    const long long P = 1ll << NB; const long long vs[] = {0, 1, 2, P - 1, P, P + 1, 2 * P - 1, 2 * P, 2 * P + 1, 3 * P + 5, 1000};
+    for (unsigned long long c0 : {0ull, 1ull, maxv / 2, maxv - 1, maxv}) for (long long v : vs) for (int op = 0; op < 4; op++) { if (v > 1000000) continue;
+      std::memcpy(buf, old, sizeof buf);
+#if DYNAMIC
+      ref_t q(buf + 1, fb);
+#else
+      ref_t q(buf + 1);
+#endif
+      q = (ref_t::integer_t)c0; BF before; std::memcpy(&before, buf + 1, sizeof before); long long want;
+      if (op == 0) { q += (int)v; want = (long long)c0 + v; } else if (op == 1) { q -= (int)v; want = (long long)c0 - v; } else if (op == 2) { ++q; want = (long long)c0 + 1; } else { --q; want = (long long)c0 - 1; }
+      want = ((want % P) + P) % P; BF after; std::memcpy(&after, buf + 1, sizeof after);
+      if ((long long)(ref_t::integer_t)q.get() != want) REPRODUCED("channel %llu %s %lld reads back %llu, expected %lld (modulo 2^%d)", c0, op == 0 ? "+=" : op == 1 ? "-=" : op == 2 ? "++" : "--", v, (unsigned long long)q.get(), want, NB);
+      if (((unsigned long long)after & ~mask) != ((unsigned long long)before & ~mask) || buf[0] != old[0] || buf[sizeof(BF) + 1] != old[sizeof(BF) + 1])
+        REPRODUCED("channel %llu %s %lld changed bits outside the channel: carrier %llx -> %llx (mask %llx)", c0, op == 0 ? "+=" : op == 1 ? "-=" : op == 2 ? "++" : "--", v, (unsigned long long)before, (unsigned long long)after, mask); }
+    NOT_REPRODUCED("proxy arithmetic is modular and confined to the channel for the searched operands"); }
   BF o, n; std::memcpy(&o, old + 1, sizeof o);
   std::string obl = vr::str("obl");
   unsigned long long expect;
